@@ -113,6 +113,11 @@ SITES = {
     'restore': ('lib_guesser/pcfg_grammar.py', 'PcfgGrammar.restore_prob_order'),
     'rec_restore': ('lib_guesser/pcfg_grammar.py', 'PcfgGrammar._recursive_restore_prob_order'),
     'ipa': ('lib_guesser/pcfg_grammar.py', 'PcfgGrammar.is_parent_around'),
+    # expansion
+    'rec_guesses': ('lib_guesser/pcfg_grammar.py', 'PcfgGrammar._recursive_guesses'),
+    'omen_gen': ('lib_guesser/pcfg_grammar.py', 'PcfgGrammar.omen_generate_guesses'),
+    'create_guesses': ('lib_guesser/pcfg_grammar.py', 'PcfgGrammar.create_guesses'),
+    'print_guess': ('lib_guesser/pcfg_grammar.py', 'PcfgGrammar.print_guess'),
 }
 
 # Lean templates.  {Pk}: hole k as a probability comparison  `O.cmp .op`
@@ -177,9 +182,44 @@ def restoreGuard (O : POps P) (parent_prob max_prob min_prob : P) (is_parent_aro
 end Pcfg.Generated.PQ
 '''
 
+TEMPLATES['Expand'] = '''import PcfgVerif.Model.Prob
+/-! GENERATED by harness/translate.py from lib_guesser/pcfg_grammar.py (`_recursive_guesses`,
+`omen_generate_guesses`) -- do not edit. -/
+namespace Pcfg.Generated.Expand
+
+def isMarkov (category : Char) : Bool := {C:rec_guesses:8} category 'M'
+def isCase (category : Char) : Bool := {C:rec_guesses:11} category 'C'
+def maskStart : Nat := {I:rec_guesses:13}
+def maskKeeps (item : Char) : Bool := {C:rec_guesses:14} item 'L'
+def maskStep : Nat := {I:rec_guesses:15}
+
+def cIsLeaf (len_pt : Nat) : Bool := {N:rec_guesses:16} len_pt {I:rec_guesses:17}
+def cLeafCount : Nat := {I:rec_guesses:18}
+def cLeafDec : Int := {I:rec_guesses:19}
+def cLeafHit (limit : Int) : Bool := {Z:rec_guesses:20} limit {I:rec_guesses:21}
+def cRecHit (limit : Int) : Bool := {Z:rec_guesses:23} limit {I:rec_guesses:24}
+
+def pIsLeaf (len_pt : Nat) : Bool := {N:rec_guesses:25} len_pt {I:rec_guesses:26}
+def pLeafCount : Nat := {I:rec_guesses:27}
+def pLeafDec : Int := {I:rec_guesses:28}
+def pLeafHit (limit : Int) : Bool := {Z:rec_guesses:29} limit {I:rec_guesses:30}
+def pRecHit (limit : Int) : Bool := {Z:rec_guesses:32} limit {I:rec_guesses:33}
+
+def ptTailC : Nat := {I:rec_guesses:22}
+def ptTailP : Nat := {I:rec_guesses:31}
+def numStart : Nat := {I:rec_guesses:0}
+
+def omenStart : Nat := {I:omen_gen:0}
+def omenCount : Nat := {I:omen_gen:2}
+def omenDec : Int := {I:omen_gen:3}
+def omenHit (limit : Int) : Bool := {Z:omen_gen:4} limit {I:omen_gen:5}
+
+end Pcfg.Generated.Expand
+'''
+
 # which template uses which sites (all holes of a site not mentioned in a template are pinned to
 # their recorded reference value: a change there is reported as `unmodelled_hole_change`)
-MODULES = {'PQ': 'PQ.lean'}
+MODULES = {'PQ': 'PQ.lean', 'Expand': 'Expand.lean'}
 
 LEAN_CMP = {'lt': '.lt', 'le': '.le', 'gt': '.gt', 'ge': '.ge', 'eq': '.eq', 'ne': '.ne'}
 
@@ -194,10 +234,11 @@ def render(template, holes_by_site, used):
             raise TranslateError(f"template refers to hole {k} of {site}, which has {len(holes)}")
         v = holes[k]
         used.setdefault(site, set()).add(k)
-        if kind in 'PN':
+        if kind in 'PNZC':
             if v not in LEAN_CMP:
                 raise TranslateError(f"{site} hole {k}: {v!r} is not a comparison usable here")
-            return f"(O.cmp {LEAN_CMP[v]})" if kind == 'P' else f"(CmpOp.nat {LEAN_CMP[v]})"
+            return {'P': f"(O.cmp {LEAN_CMP[v]})", 'N': f"(CmpOp.nat {LEAN_CMP[v]})",
+                    'Z': f"(CmpOp.int {LEAN_CMP[v]})", 'C': f"(CmpOp.chr {LEAN_CMP[v]})"}[kind]
         if kind == 'I':
             if not (isinstance(v, int) and not isinstance(v, bool) and v >= 0):
                 raise TranslateError(f"{site} hole {k}: {v!r} is not a natural-number constant")
@@ -207,7 +248,7 @@ def render(template, holes_by_site, used):
                 raise TranslateError(f"{site} hole {k}: {v!r} is not a boolean constant")
             return 'true' if v else 'false'
         raise TranslateError(kind)
-    return re.sub(r'\{([PNIB]):([a-z_0-9]+):(\d+)\}', sub, template)
+    return re.sub(r'\{([PNZCIB]):([a-z_0-9]+):(\d+)\}', sub, template)
 
 
 def load_sources(root):
